@@ -46,9 +46,14 @@ type scenario struct {
 	AgeSig   float64 `json:"age_significance"`
 	Start    string  `json:"start"` // "xor" | "random"
 	Epochs   int     `json:"epochs"`
+	// Persist: one executor value serves all epochs of the run (as in Experiment.Execute); otherwise a fresh one per epoch.
+	Persist bool `json:"persistent_executor"`
+	// Switch > 0: from that epoch on the context carries ANOTHER Options object with other values (thresholds, coefficients,
+	// survival threshold, age significance, drop-off age, stolen babies): every epoch is governed by the options it is given.
+	Switch int `json:"options_switch_epoch"`
 }
 
-var fitnessFamilies = []string{"constant", "linear", "heavy", "dominant", "stagnating", "uniform", "sparse"}
+var fitnessFamilies = []string{"constant", "linear", "heavy", "dominant", "stagnating", "uniform", "sparse", "close", "tiny"}
 
 // randomScenario draws the options within the documented ranges so that the interesting branches are reached:
 // thresholds inside the distance distribution (many species), small drop-off ages (stagnation penalty and delta
@@ -72,6 +77,10 @@ func randomScenario(r *rand.Rand, idx int, epochs int) scenario {
 	}
 	s.Surv = []float64{0.2, 0.25, 0.5, 0.1, 0.75, 1.0, 0.33, 0.6}[r.Intn(8)]
 	s.AgeSig = []float64{1.0, 1.5, 2.0, 1.1}[r.Intn(4)]
+	s.Persist = idx%4 < 3
+	if idx%3 == 1 && epochs >= 2 {
+		s.Switch = 2 + (idx/3)%(epochs-1)
+	}
 	return s
 }
 
@@ -132,6 +141,11 @@ func assignFitness(r *rand.Rand, family string, gen int, pop *genetics.Populatio
 			if i == dom || r.Intn(4) == 0 {
 				f = float64(1 + r.Intn(3))
 			}
+		case "close":
+			// pairwise different values that agree in their first nine digits (in an order unrelated to the list order)
+			f = 1.0 + float64((i*7919+gen*31)%(4*n))*1e-10
+		case "tiny":
+			f = float64(1+(i*104729+gen*17)%(4*n)) * 1e-12
 		default: // uniform
 			f = 10 * r.Float64()
 		}
@@ -151,21 +165,43 @@ type phaseObserver struct {
 
 // runEpochs evolves pop for s.Epochs generations through the three phases of the selected executor.
 // It returns the number of completed epochs and the error that stopped the run, if any.
-func runEpochs(s *scenario, r *rand.Rand, opts *neat.Options, pop *genetics.Population, ob phaseObserver) (int, error) {
-	ctx := neat.NewContext(context.Background(), opts)
+func runEpochs(s *scenario, r *rand.Rand, optsVar **neat.Options, pop *genetics.Population, ob phaseObserver) (int, error) {
+	ctx := neat.NewContext(context.Background(), *optsVar)
+	var seq *genetics.SequentialPopulationEpochExecutor
+	var par *genetics.ParallelPopulationEpochExecutor
 	for gen := 1; gen <= s.Epochs; gen++ {
+		if s.Switch > 0 && gen == s.Switch {
+			// a new Options object (the old one keeps its values); the observers read the caller's variable
+			n := **optsVar
+			k := int(s.Seed % 4)
+			n.CompatThreshold *= []float64{0.5, 2, 0.75, 3}[k]
+			n.DisjointCoeff, n.ExcessCoeff, n.MutdiffCoeff = []float64{2, 1, 0.5, 1}[k], []float64{1, 2, 1, 0.5}[k], []float64{0.4, 1, 0.2, 0.8}[k]
+			n.SurvivalThresh = []float64{0.5, 0.2, 0.9, 0.34}[k]
+			n.AgeSignificance = []float64{2.0, 1.0, 1.25, 1.5}[k]
+			n.DropOffAge = n.DropOffAge + []int{2, -1, 5, 1}[k]
+			if n.DropOffAge < 1 {
+				n.DropOffAge = 1
+			}
+			if n.BabiesStolen > 0 {
+				n.BabiesStolen = 0
+			} else {
+				n.BabiesStolen = s.PopSize / 3
+			}
+			*optsVar = &n
+			ctx = neat.NewContext(context.Background(), *optsVar)
+		}
 		assignFitness(r, s.Family, gen, pop)
 		if ob.beforePrepare != nil {
 			ob.beforePrepare(gen, pop)
 		}
-		var seq *genetics.SequentialPopulationEpochExecutor
-		var par *genetics.ParallelPopulationEpochExecutor
-		if s.Parallel {
-			par = &genetics.ParallelPopulationEpochExecutor{}
-			par.VerifInit()
-			seq = par.VerifSequential()
-		} else {
-			seq = &genetics.SequentialPopulationEpochExecutor{}
+		if seq == nil || !s.Persist || s.Parallel { // (the parallel executor makes itself a fresh inner executor in every NextEpoch)
+			if s.Parallel {
+				par = &genetics.ParallelPopulationEpochExecutor{}
+				par.VerifInit()
+				seq = par.VerifSequential()
+			} else {
+				seq = &genetics.SequentialPopulationEpochExecutor{}
+			}
 		}
 		if err := seq.VerifPrepare(ctx, gen, pop); err != nil {
 			return gen - 1, fmt.Errorf("prepare: %w", err)
